@@ -57,3 +57,13 @@ CLAIMS["C09"] = {
     "note": "Needs the verif-tagged VerifSetNow hook to own the aggregator's clock. Datapoint timestamps are the injected clock's reading at receipt.",
     "technique": "stateful property-based testing (rapid state machine) against a history model",
 }
+
+CLAIMS["C04"] = {
+    "text": "A rapid state machine draws an aggregator configuration (0..4 integer percentiles in [-100,100] incl. 0 and +-100, histogram limit 0/1/2/5/max, sub-metric masks) and a history of "
+            "merge(batch)/flush over counters, gauges, sets and timers (0..12 values incl. +-Inf and extremes; gsd_histogram tags incl. empty, malformed, duplicate, inf, nan bucket lists) with idle flushes; "
+            "after every real Aggregator.Flush the same map is handed to all 17 bundled backend variants (graphite legacy/basic/tags, statsdaemon udp/tcp/no-tags, datadog, influxdb v1/v2, newrelic infra/insights/metrics, "
+            "otlp AsGauge/AsHistogram, cloudwatch, stdout, null) built through backends.InitBackend under drawn batch size / compression / mask. Any panic in Flush or in a payload builder, a builder that does not return, "
+            "or a missing completion with an always-accepting transport is a violation. Exploration.",
+    "note": "HTTP goes to a scripted RoundTripper injected through the transport pool, sockets to a loopback listener. A panic on a goroutine the backend spawns kills the test binary: cases are journaled before each flush and the driver reports the journaled case (crash_is_violation).",
+    "technique": "stateful property-based testing (rapid state machine) with a crash-freedom oracle over every bundled backend",
+}
